@@ -124,26 +124,51 @@ pub struct Runner<'a> {
   pub bu_nontrivial: bool,
   pub diag_aborts: u64,
   trk_seen: usize,
+  ext_tick: u64,
+  file_dir: Option<std::path::PathBuf>,
 }
 
 fn res_get(pie: &mut Pie<Trk>, key: ResKey) -> Cell {
+  use pie::resource::map::GetGlobalMap;
   match key.fam {
     0 => pie.resource_state_mut::<R<0>>().get_or_set_default_mut::<SimWorld>().get(key.id),
-    _ => pie.resource_state_mut::<R<1>>().get_or_set_default_mut::<SimWorld>().get(key.id),
+    1 => pie.resource_state_mut::<R<1>>().get_or_set_default_mut::<SimWorld>().get(key.id),
+    2 => Cell { val: pie.resource_state_mut::<MK<2>>().get_global_map().get(&MK::<2>(key.id)).copied(), ver: 0 },
+    3 => Cell { val: pie.resource_state_mut::<MK<3>>().get_global_map().get(&MK::<3>(key.id)).copied(), ver: 0 },
+    _ => Cell { val: file_val(&file_path(key.id)), ver: 0 },
   }
 }
 
-fn res_set(pie: &mut Pie<Trk>, key: ResKey, val: Option<Val>) {
+/// External edit of a resource. `tick` gives file resources an explicit, strictly increasing modification time.
+fn res_set(pie: &mut Pie<Trk>, key: ResKey, val: Option<Val>, tick: u64) {
+  use pie::resource::map::GetGlobalMap;
   match key.fam {
     0 => pie.resource_state_mut::<R<0>>().get_or_set_default_mut::<SimWorld>().set(key.id, val),
-    _ => pie.resource_state_mut::<R<1>>().get_or_set_default_mut::<SimWorld>().set(key.id, val),
+    1 => pie.resource_state_mut::<R<1>>().get_or_set_default_mut::<SimWorld>().set(key.id, val),
+    2 => { let m = pie.resource_state_mut::<MK<2>>().get_global_map_mut(); match val { Some(v) => { m.insert(MK::<2>(key.id), v); } None => { m.remove(&MK::<2>(key.id)); } } }
+    3 => { let m = pie.resource_state_mut::<MK<3>>().get_global_map_mut(); match val { Some(v) => { m.insert(MK::<3>(key.id), v); } None => { m.remove(&MK::<3>(key.id)); } } }
+    _ => {
+      let p = file_path(key.id);
+      match val {
+        Some(v) => {
+          std::fs::write(&p, format!("{v}")).expect("cannot write file resource");
+          // Far in the future and strictly increasing: no outcome may depend on the real clock.
+          let t = std::time::UNIX_EPOCH + std::time::Duration::from_secs(4_102_444_800 + tick);
+          if let Ok(f) = std::fs::File::options().write(true).open(&p) { let _ = f.set_modified(t); }
+        }
+        None => { let _ = std::fs::remove_file(&p); }
+      }
+    }
   }
 }
 
 fn schedule(bu: &mut pie::BottomUpBuild, key: ResKey) {
   match key.fam {
     0 => bu.schedule_tasks_affected_by(&R::<0>(key.id) as &dyn KeyObj),
-    _ => bu.schedule_tasks_affected_by(&R::<1>(key.id) as &dyn KeyObj),
+    1 => bu.schedule_tasks_affected_by(&R::<1>(key.id) as &dyn KeyObj),
+    2 => bu.schedule_tasks_affected_by(&MK::<2>(key.id) as &dyn KeyObj),
+    3 => bu.schedule_tasks_affected_by(&MK::<3>(key.id) as &dyn KeyObj),
+    _ => bu.schedule_tasks_affected_by(&file_path(key.id) as &dyn KeyObj),
   }
 }
 
@@ -157,12 +182,23 @@ impl<'a> Runner<'a> {
       s.exec_count = vec![0; n];
     });
     pie::verif::set_hash_seed(scn.hash_seed);
+    // A private directory for file resources (removed when the runner is dropped).
+    let file_dir = if prog.resources.iter().any(|r| r.fam == 4) {
+      use std::sync::atomic::{AtomicU64, Ordering};
+      static N: AtomicU64 = AtomicU64::new(0);
+      let base = if std::path::Path::new("/dev/shm").is_dir() { std::path::PathBuf::from("/dev/shm") } else { std::env::temp_dir() };
+      let d = base.join(format!("verif-e1-{}-{}", std::process::id(), N.fetch_add(1, Ordering::Relaxed)));
+      let _ = std::fs::remove_dir_all(&d);
+      std::fs::create_dir_all(&d).expect("cannot create private directory");
+      with_sim(|s| s.file_dir = Some(d.clone()));
+      Some(d)
+    } else { None };
     let pie = Pie::with_tracker(CompositeTracker::new(Rec::new(true), CompositeTracker::new(EventTracker::default(), Rec::new(false))));
     let nres = prog.resources.len();
     Runner {
       scn, prog, prop, pie, shadow: vec![None; nres], known: BTreeSet::new(), ledger: vec![None; n], prev: vec![None; n], ever_completed: vec![false; n], stamps: vec![None], stamp_seen: BTreeMap::new(),
       changed: BTreeSet::new(), all_consistent: true, last_td: None, last_bu_complete: false, session_no: 0, aborted_before: false, aborted_earlier: false, abort_dirty: false, td_partial_exec: BTreeSet::new(),
-      vs: vec![], stats: Stats::default(), trace: 0xcbf2_9ce4_8422_2325, harness_error: None, reuse_and_exec: false, nontrivial: false, errors_fired: 0, crashes_fired: 0, td_after_abort_returned: 0, bu_nontrivial: false, diag_aborts: 0, trk_seen: 0,
+      vs: vec![], stats: Stats::default(), trace: 0xcbf2_9ce4_8422_2325, harness_error: None, reuse_and_exec: false, nontrivial: false, errors_fired: 0, crashes_fired: 0, td_after_abort_returned: 0, bu_nontrivial: false, diag_aborts: 0, trk_seen: 0, ext_tick: 0, file_dir,
     }
   }
 
@@ -172,7 +208,8 @@ impl<'a> Runner<'a> {
 
   fn external_set(&mut self, res: usize, val: Option<Val>) {
     let key = self.prog.resources[res];
-    res_set(&mut self.pie, key, val);
+    self.ext_tick += 1;
+    res_set(&mut self.pie, key, val, self.ext_tick);
     self.shadow[res] = val;
     self.changed.insert(res);
     self.all_consistent = false;
@@ -183,7 +220,8 @@ impl<'a> Runner<'a> {
     let scn = self.scn;
     for (r, v) in scn.init.iter() {
       let key = self.prog.resources[*r];
-      res_set(&mut self.pie, key, Some(*v));
+      self.ext_tick += 1;
+      res_set(&mut self.pie, key, Some(*v), self.ext_tick);
       self.shadow[*r] = Some(*v);
     }
     self.changed.clear();
@@ -707,6 +745,7 @@ impl<'a> Runner<'a> {
     let mut trace = self.trace;
     let mut errors_seen: Vec<u32> = vec![];
     let mut cutoff = false;
+    let mut fam_access = [0u64; 5];
     let mut probe_stale: BTreeSet<Tid> = BTreeSet::new();
     let mut sig_violations: Vec<Violation> = vec![];
     let mut coarse_ignored = false;
@@ -794,6 +833,7 @@ impl<'a> Runner<'a> {
           if let Some(o) = old[*t].as_ref() { if o.completed && o.out == Some(*out) { cutoff = true; } }
         }
         Ev::OpStart { t, op, target, .. } => {
+          if let Target::Res(r) = target { fam_access[r.fam as usize % 5] += 1; }
           if let (OpK::Require, Target::Task(u)) = (op, target) {
             self.known.insert(*u);
             if let Some(e) = self.ledger[*t].as_mut() { if !e.req_issued.contains(u) { e.req_issued.push(*u); } }
@@ -1064,6 +1104,7 @@ impl<'a> Runner<'a> {
     }
     let _ = errors_seen;
     if cutoff { self.stats.hit("probe_early_cutoff"); }
+    for (i, n) in fam_access.iter().enumerate() { self.stats.add(["access_sim_RA", "access_sim_RB", "access_map_MK2", "access_map_MK3", "access_file"][i], *n); }
     if coarse_ignored { self.stats.hit("probe_coarse_ignored_change"); }
     if !executed.is_empty() { self.stats.add("executions", exec_count.iter().map(|c| *c as u64).sum()); }
     self.trace = trace;
@@ -1362,7 +1403,10 @@ pub fn task_key_obj(k: TaskKey) -> Box<dyn KeyObj> {
 pub fn res_key_obj(k: ResKey) -> Box<dyn KeyObj> {
   match k.fam {
     0 => Box::new(R::<0>(k.id)),
-    _ => Box::new(R::<1>(k.id)),
+    1 => Box::new(R::<1>(k.id)),
+    2 => Box::new(MK::<2>(k.id)),
+    3 => Box::new(MK::<3>(k.id)),
+    _ => Box::new(file_path(k.id)),
   }
 }
 
@@ -1414,3 +1458,7 @@ pub fn write_checker_of(prog: &Program, w: Tid, r: usize) -> Option<RK> {
 
 #[allow(dead_code)]
 pub fn ill_summary(ill: &[Ill]) -> String { format!("{:?}", ill) }
+
+impl Drop for Runner<'_> {
+  fn drop(&mut self) { if let Some(d) = self.file_dir.take() { let _ = std::fs::remove_dir_all(d); } }
+}
